@@ -118,13 +118,7 @@ class C02(Property):
             # where the pixels come from (in-memory image / a file / an image opened from a file / one frame of an
             # animation) and which public entry point renders them
             if op != "rounda" and rng.random() < 0.5:
-                if rng.random() < 0.5 and d["mode"] in ("1", "L", "LA", "P", "RGB", "RGBA") and shape != "uniform-up":
-                    d["source"] = rng.choice(["file", "pil-file"])
-                elif shape == "free":
-                    d["source"] = rng.choice(["file", "pil-file"])
-                    d["animated"] = rng.choice([2, 3])
-                    d["frame_no"] = rng.randrange(d["animated"])
-                if not d.get("source") and shape == "free" and rng.random() < 0.5:
+                if shape == "free" and rng.random() < 0.25:
                     # a lazily-opened JPEG much larger than the render size: the decoder may not be asked for a
                     # reduced (DCT-scaled) decode - the pixels shown are the BOX reduction of the full image
                     d["source"] = rng.choice(["file", "pil-file"])
@@ -133,6 +127,12 @@ class C02(Property):
                     d["pattern"] = rng.choice(["random", "runs", "two-tone", "half-noise"])
                     d["w"] = d["cols"] * rng.choice([2, 3, 4, 8])
                     d["h"] = 2 * d["lines"] * rng.choice([2, 3, 4, 8])
+                elif rng.random() < 0.5 and d["mode"] in ("1", "L", "LA", "P", "RGB", "RGBA") and shape != "uniform-up":
+                    d["source"] = rng.choice(["file", "pil-file"])
+                elif shape == "free":
+                    d["source"] = rng.choice(["file", "pil-file"])
+                    d["animated"] = rng.choice([2, 3])
+                    d["frame_no"] = rng.randrange(d["animated"])
                 d["entry"] = rng.choice(["str", "format", "format", None] + (["iter", "iter"] if d.get("animated") else []))
                 if d["entry"]:
                     d["split"] = False
